@@ -33,12 +33,12 @@ def minimise(mod, case, cls, *, budget_s=20.0, max_steps=4000):
             cur, (res, viol) = copy.deepcopy(exp), g
     steps = 0
     cands = getattr(mod, 'shrink_candidates', None)
-    if 'history' in cur:
-        # drop earlier cases of the history, keep the last (judged) one
+    if '_prior_runs' in cur:
+        # drop earlier cases of the sequence, keep the last (judged) one
         def cands(c):   # noqa
-            h = c['history']
+            h = c['_prior_runs']
             for shorter in list_cands(h[:-1], 0):
-                yield {'history': shorter + [h[-1]]}
+                yield {'_prior_runs': shorter + [h[-1]]}
     if cands is None:
         return cur, res, viol, 0
     improved = True
